@@ -543,7 +543,7 @@ class LessThan:
 
 
 # ------------------------------------------------------------ harness helpers
-class StartTimeout(Exception):
+class StartTimeout(BaseException):  # not swallowed by `except Exception` in the client
     pass
 
 
@@ -592,26 +592,49 @@ def kill_child_servers() -> int:
     return n
 
 
-def safe_compiler(num_workers: int, attempts: int = 4, first_wait: int = 75) -> Any:
-    """`compiledrv.new_compiler` under a start-up watchdog (main thread of a
-    batch process only; the process owns one compiler at a time)."""
+def _warm_up(comp: Any, num_workers: int) -> None:
+    """First use of every worker imports the pass modules (tens of seconds on
+    a loaded machine): do it outside the per-case watchdogs."""
+    from bqskit.passes import ForEachBlockPass
+    c = Circuit(2)
+    for _ in range(2 * num_workers + 2):
+        sub = Circuit(1)
+        sub.append_gate(HGate(), 0)
+        c.append_gate(CircuitGate(sub), 0)
+        c.append_gate(CircuitGate(sub), 1)
+    comp.compile(c, [ForEachBlockPass([Body('identity')])])
+
+
+def safe_compiler(num_workers: int, attempts: int = 4, first_wait: int = 75, warm: bool = True) -> Any:
+    """`compiledrv.new_compiler` under a start-up watchdog, then a warm-up
+    compilation (main thread of a batch process only; the process owns one
+    compiler at a time)."""
     import signal as _signal
     from vlib.compiledrv import new_compiler
 
     def _alarm(signum: int, frame: Any) -> None:
         raise StartTimeout()
 
-    last: Exception | None = None
+    last: BaseException | None = None
     for k in range(attempts):
         old = _signal.signal(_signal.SIGALRM, _alarm)
         _signal.alarm(first_wait + 45 * k)
+        comp = None
         try:
-            return new_compiler(num_workers)
-        except StartTimeout as e:
+            comp = new_compiler(num_workers)
+            if warm:
+                _signal.alarm(240 + 120 * k)
+                _warm_up(comp, num_workers)
+            return comp
+        except (StartTimeout, RuntimeError) as e:
             last = e
-            kill_child_servers()
-        except RuntimeError as e:
-            last = e
+            _signal.alarm(0)
+            if comp is not None:
+                try:
+                    comp.conn = None  # no graceful handshake with a stuck server
+                    comp.close()
+                except BaseException:  # noqa
+                    pass
             kill_child_servers()
         finally:
             _signal.alarm(0)
